@@ -257,8 +257,10 @@ struct World {
    std::vector<const ipr::Linkage*> linkages;
    std::vector<const ipr::Calling_convention*> convs;
    std::vector<const ipr::Transfer*> transfers;
+   std::map<const ipr::Transfer*, std::string> transfer_spelled;   // how each transfer was spelled when it was requested: language \x1f convention
    std::vector<const ipr::Type*> types;
    std::vector<const ipr::Type*> plain_types;      // not Qualified
+   std::vector<const ipr::Type*> qualified_types;  // Qualified (operands for nested qualification)
    std::vector<const ipr::Product*> products;
    std::vector<const ipr::Sum*> sums;
    std::vector<const ipr::Function*> functions;
